@@ -149,8 +149,11 @@ def xff10_decode(h):
     r = h.method(dec, "decode", buf, at5_ext_subheader(h, ID_ERR, mlen))
     h.oblige("returns or rejects", only_rejects(h, r))
     if not r.ok:
-        h.oblige("only an empty payload or invalid UTF-8 is rejected here",
-                 Or(mlen == 0, r.raised("UnicodeDecodeError")))
+        # legitimate rejections: no AC index at all, a string that is not UTF-8, or (C17) a length byte that
+        # announces more error text than the payload carries (DecodeError)
+        too_long = And(mlen >= 2, 2 + _byte_at(h, buf, 1) > mlen) if (h.symbolic or len(buf) >= 2) else False
+        h.oblige("only an empty payload, invalid UTF-8 or an announced length that exceeds the payload is rejected here",
+                 Or(mlen == 0, r.raised("UnicodeDecodeError"), And(r.raised("DecodeError"), too_long)))
         return
     m = h.attr(r.value, "message")
     rem = h.attr(r.value, "remaining")
@@ -231,7 +234,11 @@ def xff30_decode(h):
     r = h.method(dec, "decode", buf, at5_ext_subheader(h, ID_VERSION, L))
     h.oblige("returns or rejects", only_rejects(h, r))
     if not r.ok:
-        h.oblige("only a 1-byte payload or invalid UTF-8 is rejected here", Or(L == 1, r.raised("UnicodeDecodeError")))
+        # legitimate rejections: no length byte, a string that is not UTF-8, or (C17) a length byte that
+        # announces more version text than the payload carries (DecodeError)
+        too_long = 2 + h.items(buf)[1] > L if L >= 2 else False
+        h.oblige("only a 1-byte payload, invalid UTF-8 or an announced length that exceeds the payload is rejected here",
+                 Or(L == 1, r.raised("UnicodeDecodeError"), And(r.raised("DecodeError"), too_long)))
         return
     m = h.attr(r.value, "message")
     rem = h.attr(r.value, "remaining")
@@ -401,56 +408,109 @@ def check_ability_stride(h, b, advanced, tag=""):
              advanced == 2 + b[1])
 
 
-def _install_record_loop(h, fn, listvar, stride, mlen, check_record, tag, bufvar="buffer"):
-    """Loop contract (unbounded record count) for
-         for _ in range(message_length // stride): unpack_from(buffer); buffer = buffer[stride:]; list.append(rec)
-    the state at iteration k is constructed (cursor = entry + stride*k, list = k specified records), the real
-    body runs once for an arbitrary k and must (a) append exactly one record, (b) move the cursor by `stride`
-    and (c) pass check_record(record, bytes at the cursor, k)."""
+class _AbilityWalk:
+    """Ghost definitions of the vendor walk over a payload (page 12: "following data length ... the count of
+    following bytes belong to the ability of this AC"): record k starts at OFF(k),
+        OFF(0) = 0,   OFF(k+1) = OFF(k) + 2 + Byte4 of the record at OFF(k),
+    and N = the first k with OFF(k) >= message_length (it exists: every step is >= 2).  OFF is an
+    uninterpreted function, N a constant; only ground instances of these definitions are assumed."""
+
+    def __init__(self, h, buf, mlen):
+        import z3
+        from pyvc import sym as S
+        self.h, self.buf, self.mlen = h, buf, mlen
+        self.f = z3.Function(S.fresh_name("OFF"), z3.IntSort(), z3.IntSort())
+        self.N = S.SInt(z3.Int(S.fresh_name("N")))
+        h.path.inputs["xFF11-walk:N"] = self.N
+
+    def off(self, k):
+        from pyvc import sym as S
+        return S.mkint(self.f(S.int_t(k)))
+
+    def instance(self, k, why):
+        """The definitions at index k."""
+        h = self.h
+        o = self.off(k)
+        h.assume(And(o >= 0, self.off(k + 1) == o + 2 + self.buf.at(o + 1),
+                     Implies(k < self.N, o < self.mlen), Implies(k >= self.N, o >= self.mlen)), why)
+
+
+def _install_ability_loop(h, buf, mlen, check_record, tag="xFF11"):
+    """Loop contract (unbounded record count, variable stride) for the decode loop
+         offset = 0
+         while offset < message_length: unpack_from(buffer, offset); [reject Byte4 < 24]; offset += 2 + Byte4; list.append(rec)
+    State at iteration k (constructed): offset = OFF(k) of the vendor walk, list = the k specified records.
+    The real body runs once for an arbitrary k < N and must (a) append exactly one record, (b) leave the
+    cursor at OFF(k+1) = OFF(k) + 2 + Byte4, (c) have the 26 known bytes inside the payload, (d) pass
+    check_record(record, the 26 bytes at the cursor, bytes the cursor moved, k).  StateLoop also obliges that
+    the loop test agrees with k < N at the head of iteration k and at exit."""
     from pyvc.loops import StateLoop, SpecList
-    from pyvc.values import ABytes
     from pyvc import sym as S
+    walk = _AbilityWalk(h, buf, mlen)
+    inside = lambda k: walk.off(k) + ABILITY_RECORD <= mlen  # noqa: E731
 
     def n_of(it, iterable, entry, env):
-        return mlen // stride
+        return walk.N
+
+    def define(it, k, entry):
+        why = "definition of the vendor walk OFF / N (ground instance)"
+        if k == "init":
+            h.assume(walk.off(0) == 0, why)
+            walk.instance(0, why)
+            walk.instance(1, why)
+        elif k is None:
+            walk.instance(walk.N, why)
+            # loop invariant "every completed iteration had its 26 known bytes inside the payload" (obliged for
+            # an arbitrary iteration below), used at exit for the first record
+            h.assume(Implies(walk.N >= 1, inside(0)), "invariant: obliged per iteration as 'the 26 known bytes of the record lie inside the payload'")
+        else:
+            walk.instance(k, why)
 
     def at(it, k, entry):
-        b0 = entry[bufvar]
-        if not isinstance(b0, ABytes) or entry[listvar] != []:
+        if entry["ac_abilities"] != [] or not (isinstance(entry["offset"], int) and entry["offset"] == 0):
             raise Exception("loop entry state does not match the contract pattern")
-        return {bufvar: ABytes(b0.arr, b0.off + stride * k, b0.ln - stride * k, b0.name), listvar: SpecList(tag, k)}
+        return {"offset": walk.off(k), "ac_abilities": SpecList(tag, k)}
 
     def check(it, k, entry, after):
-        b0 = entry[bufvar]
-        nb = after[bufvar]
-        lst = after[listvar]
-        ok_shape = isinstance(nb, ABytes) and nb.same_base(b0) and isinstance(lst, SpecList) and len(lst.appended) == 1
-        h.oblige(f"{tag}-loop/exactly one record appended and the cursor is a view of the same buffer", ok_shape, kind="loop-preserve")
+        lst = after["ac_abilities"]
+        ok_shape = isinstance(lst, SpecList) and len(lst.appended) == 1
+        h.oblige(f"{tag}-loop/exactly one record appended", ok_shape, kind="loop-preserve")
         if not ok_shape:
             return
-        h.oblige(f"{tag}-loop/cursor advances by the record size",
-                 And(S.eq(nb.off, b0.off + stride * (k + 1)), S.eq(nb.ln, b0.ln - stride * (k + 1))), kind="loop-preserve")
-        cur = ABytes(b0.arr, b0.off + stride * k, b0.ln - stride * k, b0.name)
-        check_record(lst.appended[0], [cur.at(i) for i in range(stride)], k)
+        cur = walk.off(k)
+        h.oblige(f"{tag}-loop/the cursor moves to the start of the next record of the vendor walk",
+                 S.eq(after["offset"], walk.off(k + 1)), kind="loop-preserve")
+        h.oblige(f"{tag}-loop/the 26 known bytes of the record lie inside the payload", inside(k), kind="loop-preserve")
+        check_record(lst.appended[0], [buf.at(cur + i) for i in range(ABILITY_RECORD)], after["offset"] - cur, k)
 
-    h.it.loop_hooks[(fn, 0)] = StateLoop(f"{tag}-loop", [bufvar, listvar], n_of, at, check)
+    h.it.loop_hooks[(XABL + ":AcAbilityDecoder.decode", 0)] = StateLoop(f"{tag}-loop", ["offset", "ac_abilities"], n_of, at, check, define=define)
+    return walk
+
+
+def _native_ability_walk(buf):
+    """Vendor walk on concrete bytes: list of record offsets and the offset where the walk ends."""
+    offs, off = [], 0
+    while off < len(buf):
+        offs.append(off)
+        off += 2 + (buf[off + 1] if off + 1 < len(buf) else 0)
+    return offs, off
 
 
 @oset("at5.xFF11.decode-vendor-reading", ["C05", "C17"], ABILITY_FNS[2:],
       assumptions=["len(payload) == sub-header.message_length (what the receive path hands to a sub-decoder)"])
 def xff11_decode(h):
     """Arbitrary payload, unbounded in length and record count: loop contract on the real decode loop.
-    The decoder walks the payload in fixed 26-byte steps; the vendor reading walks it by the announced
-    following data length - they agree iff every record announces 24 (obligations of check_ability_stride)."""
+    The vendor reading walks the payload by the announced following data length (record stride 2 + Byte4);
+    every record the decoder delivers must sit at the walk's offset, announce >= 24 following bytes, be read
+    from its 26 known bytes, and the walk must end exactly at the end of the payload."""
     buf, mlen = _payload(h)
     dec = h.new(XABL + ":AcAbilityDecoder")
 
-    def per_record(rec, b, k):
-        check_ability_stride(h, b, ABILITY_RECORD, "record k: ")
+    def per_record(rec, b, advanced, k):
+        check_ability_stride(h, b, advanced, "record k: ")
         check_ability_record(h, rec, b, "record k: ")
 
-    if h.symbolic:
-        _install_record_loop(h, XABL + ":AcAbilityDecoder.decode", "ac_abilities", ABILITY_RECORD, mlen, per_record, "xFF11")
+    walk = _install_ability_loop(h, buf, mlen, per_record) if h.symbolic else None
     r = h.method(dec, "decode", buf, at5_ext_subheader(h, ID_ABILITY, mlen))
     h.oblige("returns or rejects", only_rejects(h, r))
     if not r.ok:
@@ -469,15 +529,22 @@ def xff11_decode(h):
     if h.symbolic:
         from pyvc.loops import SpecList
         g = h.attr(m, "ac_abilities")
-        h.oblige("decoded list is exactly one record per 26 bytes",
-                 And(isinstance(g, SpecList), g.n == mlen // ABILITY_RECORD if isinstance(g, SpecList) else False))
-        h.oblige("the records tile the payload: nothing left over", h.length(rem) == 0)
+        h.oblige("decoded list is exactly the records of the vendor walk (one per announced stride)",
+                 And(isinstance(g, SpecList), g.n == walk.N if isinstance(g, SpecList) else False))
+        h.oblige("the records tile the payload: the walk ends exactly at its end", walk.off(walk.N) == mlen)
+        h.oblige("nothing left over", h.length(rem) == 0)
     else:
         g = h.elems(h.attr(m, "ac_abilities"))
-        h.oblige("decoded list is exactly one record per 26 bytes", len(g) == mlen // ABILITY_RECORD)
-        h.oblige("the records tile the payload: nothing left over", h.length(rem) == 0)
-        for k, rec in enumerate(g):
-            per_record(rec, list(buf[ABILITY_RECORD * k:ABILITY_RECORD * (k + 1)]), k)
+        offs, end = _native_ability_walk(buf)
+        h.oblige("decoded list is exactly the records of the vendor walk (one per announced stride)", len(g) == len(offs))
+        h.oblige("the records tile the payload: the walk ends exactly at its end", end == mlen)
+        h.oblige("nothing left over", h.length(rem) == 0)
+        for k, (rec, off) in enumerate(zip(g, offs)):
+            b = list(buf[off:off + ABILITY_RECORD])
+            ok = len(b) == ABILITY_RECORD
+            h.oblige("xFF11-loop/the 26 known bytes of the record lie inside the payload", ok)
+            if ok:
+                per_record(rec, b, 2 + b[1], k)
     h.cover("xFF11 decode returns a message")
 
 
@@ -492,13 +559,12 @@ def xff11_decode_longer(h):
     h.assume(_byte_at(h, buf, 1) == ABILITY_KNOWN_FOLLOWING + extra, "the one record announces its real length")
     dec = h.new(XABL + ":AcAbilityDecoder")
 
-    def per_record(rec, b, k):
-        # only the first 26-byte step is a record under the vendor reading ("exactly one record" below)
+    def per_record(rec, b, advanced, k):
+        # the vendor walk has one record, at offset 0 ("exactly one record" below)
         h.assume(k == 0, "the vendor reading has one record: at offset 0")
         check_ability_record(h, rec, b, "known prefix: ")
 
-    if h.symbolic:
-        _install_record_loop(h, XABL + ":AcAbilityDecoder.decode", "ac_abilities", ABILITY_RECORD, mlen, per_record, "xFF11")
+    walk = _install_ability_loop(h, buf, mlen, per_record) if h.symbolic else None
     r = h.method(dec, "decode", buf, at5_ext_subheader(h, ID_ABILITY, mlen))
     h.oblige("returns or rejects", only_rejects(h, r))
     h.oblige("a record longer than the known layout is not rejected for its length",
@@ -518,7 +584,7 @@ def xff11_decode_longer(h):
         g = h.elems(g)
         count = len(g)
         if g:
-            per_record(g[0], list(buf[:ABILITY_RECORD]), 0)
+            per_record(g[0], list(buf[:ABILITY_RECORD]), 2 + buf[1], 0)
     h.oblige("exactly the one announced record is decoded (the extra bytes are skipped, not read as another AC)", count == 1)
     h.oblige("nothing left over", h.length(h.attr(r.value, "remaining")) == 0)
 
